@@ -567,7 +567,7 @@ func runC17(c *core.Ctx) {
 		if i%3 != 2 {
 			src = wl.SoupFrom(r, c17Soup, 2+r.Intn(24))
 		} else {
-			src = wl.Mix(r, corpus)
+			src = mixDoc(r, corpus)
 			for k := 1 + r.Intn(3); k > 0; k-- {
 				p := r.Intn(len(src) + 1)
 				ins := c17Soup[r.Intn(len(c17Soup))]
